@@ -180,7 +180,7 @@ namespace Givaro
         typedef ModularRandIter<Self_t> RandIter;
         typedef GeneralRingNonZeroRandIter<Self_t> NonZeroRandIter;
         template< class Random > Element& random(Random& g, Element& r) const
-        { RecInt::rand(r); mod_n(r, _p); return r; }
+        { RecInt::rand(r, g); mod_n(r, _p); return r; }
         template< class Random > Element& nonzerorandom(Random& g, Element& a) const
         { while (isZero(random(g, a))) {} return a; }
 
